@@ -20,7 +20,7 @@ structure NodeTrans (c : Config) (nd nd' : Node) (grant : Option Nat) : Prop whe
   shape :
     nd'.role = .follower
     ∨ (nd'.role = nd.role ∧ nd'.term = nd.term ∧ nd'.votes = nd.votes)
-    ∨ (nd'.role = .candidate ∧ nd'.votes = [nd.id] ∧ nd'.votedFor = some nd.id)
+    ∨ (nd'.role = .candidate ∧ nd'.votes = [nd.id] ∧ nd'.votedFor = some nd.id ∧ nd.term < nd'.term)
     ∨ (nd.role = .candidate ∧ nd'.term = nd.term ∧
         (∃ src, grant = some src ∧ src ∉ nd.votes ∧ nd'.votes = nd.votes ++ [src]) ∧
         (nd'.role = .candidate ∨ (nd'.role = .leader ∧ c.quorum ≤ nd'.votes.length)))
@@ -52,7 +52,7 @@ theorem NodeTrans.trans_same {c : Config} {nd nd1 nd' : Node} {g : Option Nat}
     · rcases h.shape with s | s | s | s
       · exact Or.inl (by rw [h3]; exact s)
       · exact Or.inr (Or.inl ⟨by rw [h3]; exact s.1, by rw [h1]; exact s.2.1, by rw [h4]; exact s.2.2⟩)
-      · exact Or.inr (Or.inr (Or.inl ⟨by rw [h3]; exact s.1, by rw [h4]; exact s.2.1, by rw [h2]; exact s.2.2⟩))
+      · exact Or.inr (Or.inr (Or.inl ⟨by rw [h3]; exact s.1, by rw [h4]; exact s.2.1, by rw [h2]; exact s.2.2.1, by rw [h1]; exact s.2.2.2⟩))
       · refine Or.inr (Or.inr (Or.inr ⟨s.1, by rw [h1]; exact s.2.1, ?_, ?_⟩))
         · obtain ⟨src, a, b, d⟩ := s.2.2.1
           exact ⟨src, a, b, by rw [h4]; exact d⟩
@@ -62,7 +62,7 @@ theorem NodeTrans.trans_same {c : Config} {nd nd1 nd' : Node} {g : Option Nat}
 theorem startElection_trans (c : Config) (nd : Node) (g : Option Nat) :
     NodeTrans c nd (startElection nd).1 g :=
   ⟨rfl, by simp [startElection], fun e => by simp [startElection] at e,
-   Or.inr (Or.inr (Or.inl ⟨rfl, rfl, rfl⟩))⟩
+   Or.inr (Or.inr (Or.inl ⟨rfl, rfl, rfl, by simp [startElection]⟩))⟩
 
 theorem startPreVote_trans (c : Config) (nd : Node) (g : Option Nat) :
     NodeTrans c nd (startPreVote nd).1 g :=
@@ -165,7 +165,7 @@ theorem handlePreVoteResp_trans (c : Config) (nd : Node) (src t : Nat) (gr : Boo
           by_cases h5 : ({ nd with preVotes := nd.preVotes ++ [src] } : Node).preVotes.length ≥ c.quorum
           · rw [if_pos h5]
             exact ⟨rfl, by simp [startElection], fun e => by simp [startElection] at e,
-              Or.inr (Or.inr (Or.inl ⟨rfl, rfl, rfl⟩))⟩
+              Or.inr (Or.inr (Or.inl ⟨rfl, rfl, rfl, by simp [startElection]⟩))⟩
           · rw [if_neg h5]
             exact NodeTrans.of_same c nd _ g rfl rfl rfl rfl rfl
       · rw [if_neg h3]; exact NodeTrans.refl _ _ _
@@ -489,7 +489,7 @@ theorem inv_setNode (c : Config) (s : Sys) (i : Nat) (nd nd' : Node) (g : Option
         have hold := hI.votesOk j nd hnd (by rw [← hr]; exact hrole)
         rw [hterm, hvotes, hr]
         exact ⟨fun v hv => List.mem_append_left _ (hold.1 v hv), hold.2.1, hold.2.2⟩
-      · obtain ⟨hr, hvotes, hvf⟩ := sh
+      · obtain ⟨hr, hvotes, hvf, _⟩ := sh
         rw [hvotes, hr]
         refine ⟨?_, by simp, fun h => by cases h⟩
         intro v hv
@@ -650,6 +650,8 @@ theorem inv_step (c : Config) (s : Sys) (st : Step) (hI : Inv c s) : Inv c (sysS
         (by intro a b m h; simp at h)
   | replicate i j =>
     simp only [sysStep]
+    split
+    · exact hI
     cases hnd : s.nodes[i]? with
     | none => exact hI
     | some nd =>
